@@ -571,13 +571,14 @@ Definition verify_revocation (c : cfg) (P : params) (k : pubkey) (s : sigcore) :
 
 (* ---------- ReadEntity (keys.go:314-498) ---------- *)
 Record identity := mkid { id_name : bytes; id_self : sigcore; id_others : list sigcore }.
-Record subkey := mksub { sk_key : pubkey; sk_sig : sigcore }.
+(* sk_sig: Subkey.Sig (the binding signature that counts, or the revocation); sk_bind: Subkey.BindingSig *)
+Record subkey := mksub { sk_key : pubkey; sk_sig : sigcore; sk_bind : option sigcore }.
 Record entity := mkent { e_primary : pubkey; e_ids : list identity; e_subkeys : list subkey; e_revs : list sigcore }.
 
 Inductive mode : Type :=
 | MTop
 | MUid (name : bytes) (self : option sigcore) (others : list sigcore)
-| MSub (k : pubkey) (sg : option sigcore).
+| MSub (k : pubkey) (sg : option sigcore) (bd : option sigcore).
 
 Record est := mkest { st_ids : list identity; st_subs : list subkey; st_revs : list sigcore }.
 
@@ -594,8 +595,8 @@ Definition close_mode (st : est) (m : mode) : result est :=
   | MTop => Ok st
   | MUid name (Some s) others => Ok (mkest (put_identity (mkid name s others) (st_ids st)) (st_subs st) (st_revs st))
   | MUid _ None _ => Ok st
-  | MSub k (Some s) => Ok (mkest (st_ids st) (st_subs st ++ [mksub k s]) (st_revs st))
-  | MSub _ None => Err "subkey packet not followed by signature"
+  | MSub k (Some s) bd => Ok (mkest (st_ids st) (st_subs st ++ [mksub k s bd]) (st_revs st))
+  | MSub _ None _ => Err "subkey packet not followed by signature"
   end.
 
 Inductive next : Type := Cont (st : est) (m : mode) | Stop (st : est).
@@ -608,7 +609,7 @@ Definition top_step (st : est) (p : packet) : next :=
       if sc_type (s_core s) =? pgp_sigtype_key_revocation
       then Cont (mkest (st_ids st) (st_subs st) (st_revs st ++ [s_core s])) MTop
       else Cont st MTop
-  | PKey sub _ k => if sub then Cont st (MSub k None) else Stop st     (* Unread; break EachPacket *)
+  | PKey sub _ k => if sub then Cont st (MSub k None None) else Stop st     (* Unread; break EachPacket *)
   | POther => Cont st MTop                                             (* default: we ignore unknown packets *)
   end.
 
@@ -635,7 +636,7 @@ Definition step (c : cfg) (P : params) (primary : pubkey) (pid : N) (st : est) (
         let* _ := verify_uid_sig c P primary name core in
         Ok (Cont st (MUid name (Some core) others))
       else Ok (Cont st (MUid name self (others ++ [core])))
-  | MSub k sg, PSig s =>
+  | MSub k sg bd, PSig s =>
       (* addSubkey :442 *)
       let core := s_core s in
       let t := sc_type core in
@@ -643,9 +644,11 @@ Definition step (c : cfg) (P : params) (primary : pubkey) (pid : N) (st : est) (
       then Err "subkey signature with wrong type"
       else
         let* _ := verify_key_sig c P primary k s in
-        if t =? pgp_sigtype_subkey_revocation then Ok (Cont st (MSub k (Some core)))
-        else if should_replace sg core then Ok (Cont st (MSub k (Some core)))
-        else Ok (Cont st (MSub k sg))
+        if t =? pgp_sigtype_subkey_revocation then Ok (Cont st (MSub k (Some core) bd))
+        else
+          let bd' := if should_replace bd core then Some core else bd in
+          if should_replace sg core then Ok (Cont st (MSub k (Some core) bd'))
+          else Ok (Cont st (MSub k sg bd'))
   | _, _ =>
       (* not a signature: Unread, leave the helper, the main loop sees the packet *)
       let* st' := close_mode st m in
@@ -720,10 +723,15 @@ Definition identity_info (c : cfg) (primary : pubkey) (i : identity) : info :=
         (if fix38 c then [] else flat_map (fun s => describe_sig c s (pk_created primary)) (id_others i)))
        [].
 (* parsers.go:175 — the Created attribute is overwritten with the subkey's own creation time *)
+(* parsers.go:178 - the signature whose usage and lifetime are shown *)
+Definition sk_shown (c : cfg) (s : subkey) : sigcore :=
+  if fix41 c && (sc_type (sk_sig s) =? pgp_sigtype_subkey_revocation)
+  then match sk_bind s with Some b => b | None => sk_sig s end
+  else sk_sig s.
 Definition subkey_sig_attrs (c : cfg) (s : subkey) : list (bytes * bytes) :=
   map (fun nv => if fix39 c && bytes_eqb (fst nv) (bs "Created")
                  then (fst nv, fmt_date_utc (pk_created (sk_key s))) else nv)
-      (describe_sig c (sk_sig s) (pk_created (sk_key s))).
+      (describe_sig c (sk_shown c s) (pk_created (sk_key s))).
 Definition subkey_info (c : cfg) (H : bytes -> bytes) (s : subkey) : info :=
   Info (bs "GPG/PGP subkey")
        (describe_key H (sk_key s) ++ subkey_sig_attrs c s)
